@@ -15,9 +15,18 @@ class TripError(Exception):
     pass
 
 
+LAST_RAISE = [None]   # journal length when a hook last raised (transient inspection fault)
+
+
 def _hit(oid, hook, detail=None):
     _A((oid, hook, detail))
-    if ARMED[0]:
+    a = ARMED[0]
+    if a:
+        if a is not True:
+            ARMED[0] = a - 1   # transient fault: only the first n hook invocations raise
+        from . import rt
+
+        LAST_RAISE[0] = len(rt.J)
         raise TripError("%s %s" % (hook, detail))
 
 
@@ -385,3 +394,4 @@ def factory(fnames):
 def reset():
     del HJ[:]
     ARMED[0] = False
+    LAST_RAISE[0] = None
